@@ -189,6 +189,10 @@ pub mod stubs {
         kani::assume(false);
         true
     }
+    /// `format!` results are error-message texts only on the paths under test; their contents are no property's subject.
+    pub fn fmt_stub(_args: core::fmt::Arguments<'_>) -> String {
+        String::new()
+    }
     pub fn bm_new() -> bytes::BytesMut {
         bytes::BytesMut::with_capacity(256)
     }
